@@ -29,6 +29,11 @@ import (
 
 var clock int64
 
+// stuckTrials counts trials of this process that ended in the attributable
+// stuck verdict; each costs the full grace period, so after a few of them the
+// rest of the shard is skipped (the violation is already established).
+var stuckTrials int
+
 func tick() int64 { return atomic.AddInt64(&clock, 1) }
 
 type wop struct {
@@ -403,6 +408,7 @@ func runTrial(r *vlib.Run, mode string, trial int, rng *rand.Rand) {
 		return map[string]interface{}{"targets": tc.targets, "origins": tc.origin, "subscription": map[string]interface{}{"target": s.target, "paths": s.paths, "path_origins": s.porigin, "updates_only": s.updatesOnly, "start_at_op": s.startAt}, "gomaxprocs": procs, "hold_point": holdPoint, "ops_per_writer": nops}
 	}
 	if stuck != "" {
+		stuckTrials++
 		r.Violation(mode, trial, "no-convergence:stuck", stuck, witness(subs[0]))
 	} else {
 		for _, s := range subs {
@@ -645,6 +651,10 @@ func judge(r *vlib.Run, mode string, trial int, tc *trialCfg, c *cache.Cache, s 
 
 func body(r *vlib.Run) {
 	r.ForTrials("stream", r.N(400, 20000), func(trial int, rng *rand.Rand) {
+		if stuckTrials >= 3 {
+			r.Count("trials_skipped_after_repeated_stuck_verdicts", 1)
+			return
+		}
 		runTrial(r, "stream", trial, rng)
 	})
 }
